@@ -20,3 +20,13 @@ class ClassificationWiringBounded(NativeBounded):
 
 
 BOUNDED.append(ClassificationWiringBounded())
+
+
+class GroupScopingBounded(NativeBounded):
+    property_ids = ["C11", "C09", "C01"]
+    module = "contracts.connect_native"
+    func = "bounded_group_scoping"
+    what = "mosaik.scenario.World.group / World.start (group and depth bookkeeping) with World.connect(weak=True)"
+
+
+BOUNDED.append(GroupScopingBounded())
